@@ -248,6 +248,13 @@ func (tr *Tr) execInstr(fr *Frame, in ssa.Instruction, st *State) {
 			panic(subsetErr("unary " + x.Op.String()))
 		}
 	case *ssa.BinOp:
+		if ph, ok := x.X.(*ssa.Phi); ok && x.Op == token.ADD && ph.Comment == "rangeindex" {
+			if c, ok := x.Y.(*ssa.Const); ok && c.Value != nil && c.Value.ExactString() == "1" {
+				// the hidden index of a range loop: it stays below the length of the ranged value, so the increment cannot wrap
+				fr.vals[x] = Sc{T: sAdd(tr.asSc(tr.val(fr, x.X), nil).T, "1")}
+				break
+			}
+		}
 		fr.vals[x] = tr.binop(x.Op, tr.val(fr, x.X), tr.val(fr, x.Y), x.X.Type(), x.Type(), st)
 	case *ssa.Store:
 		pt := x.Addr.Type().Underlying().(*types.Pointer).Elem()
